@@ -24,7 +24,7 @@ fn cfg(tier: Tier, index: u64) -> HistCfg {
     w.is_empty = 0;
     w.bulk = 2;
     w.reopen = if index % 4 == 0 { 1 } else { 0 };
-    HistCfg {
+    let mut c = HistCfg {
         kts: Kt::ALL.to_vec(),
         key: KeyProfile::Medium,
         n_keys: 1..=50,
@@ -42,7 +42,13 @@ fn cfg(tier: Tier, index: u64) -> HistCfg {
         },
         obs: Obs::default(),
         target_pct: 20,
-    }
+        prelude: Prelude::None,
+        phases: false,
+        special_keys: false,
+        default_table: false,
+    };
+    rare_regions(&mut c, index);
+    c
 }
 
 fn ro_cfg() -> OpsCfg {
